@@ -52,6 +52,8 @@ func C03(e *Env) {
 	c11LanguagesOf(e, tv)
 	r.Rule("R11.2", "the token and argument grammars (reference name, fn(args), @service, !tagged, !value and the three prefixes) accept exactly the documented language for all strings, as compiled and as used (shared with C11): an unknown function, a malformed token or trailing text after a call is rejected at build time", 8)
 	c03GoCode(e)
+	percentToken(e, "R03.6")
+	r.Rule("R03.6", "%% is the literal %: the doubled-delimiter factory accepts exactly the doubled delimiter and generates a provider that returns the single delimiter", 2)
 	c06Recorded(e)
 	r.Rule("R06.4", "emitted reference = recorded reference; dependencies are the union over all tokens (shared with C06)", 6)
 	orderRule(e, "R03.4", tokenRel, "Tokenizer.Tokenize", "Tokens.GoCode")
